@@ -21,6 +21,12 @@ What is translated (everything that is match-shaped or a straight-line expressio
     under #[cfg(feature = "kurbo")] / #[cfg(not(feature = "kurbo"))] are taken for the respective variant; a
     delegation `kurbo::Affine::from(transform) * self.to_kurbo()` becomes `kApply (toK t) x y`
                                                                    -> Gen.transform (kurbo build), Gen.transformPlain (default build)
+  * early returns at the top of `transform` (`if <cond> { return; }`): the condition is translated — a predicate method
+    such as `transform.is_identity()` by reading ITS body from the source (`(self.f - identity.f).abs() < f64::EPSILON`,
+    `self.f == 1.0`, `*self == Self::identity()`, …, with `identity()`'s literals) — over abstract numeric operations
+    (`C20.Num`) into `Gen.transformGuard`, and `Gen.transform` becomes `if guard then (x, y) else (formula)`; the number
+    of guards is `Gen.transformGuards` (0 for the code the model describes)
+  * NO statement of a translated body is ever skipped: anything unrecognised raises Anchor -> pinned copy
   * the coefficient order of both conversions                                                 -> Gen.toK / Gen.ofK
   * kurbo's `Affine * Point` expressions                                                      -> Gen.kApply
 
@@ -241,20 +247,27 @@ def gen_to_kurbo(src):
     i = need(re.search(r"pub fn to_kurbo\(&self\) -> Result<kurbo::BezPath, ConvertContourError> ", src), "to_kurbo").end()
     body, _ = block_after(src, i - 1)
     closes = len(re.findall(r"close_path", body))
-    i = need(re.search(r"let mut points = if self\.is_closed\(\) ", body), "closed test").end()
+    m0 = need(re.search(r"let mut points = if self\.is_closed\(\) ", body), "closed test")
+    # every statement of the body must be one the translator knows: an unrecognised one is never skipped
+    known_prefix = {"let mut path = kurbo::BezPath::new()", "let mut offs = std::collections::VecDeque::new()",
+                    "let mut offs = VecDeque::new()"}
+    pre = split_top(body[:m0.start()], ";")
+    if len(pre) != 2 or any(q not in known_prefix for q in pre) or pre[0] == pre[1]:
+        raise Anchor("to_kurbo: unknown statements before the walk: %s" % pre)
+    i = m0.end()
     closed, after = block_after(body, i - 1)
     need(re.match(r" ?else ", body[after:]), "open branch")
     opened, after = block_after(body, after)
     rest = body[after:].lstrip("; ")
 
-    m = re.search(r"let rotate = self \.points \.iter\(\) \.rev\(\) \.position\(\|(\w+)\| \1\.typ (!=|==) PointType::(\w+)\) "
+    m = re.match(r"let rotate = self \.points \.iter\(\) \.rev\(\) \.position\(\|(\w+)\| \1\.typ (!=|==) PointType::(\w+)\) "
                   r"\.map\(\|(\w+)\| self\.points\.len\(\) - (\d+) - \4\);", closed) or \
-        re.search(r"let rotate = self\.points\.iter\(\)\.rev\(\)\.position\(\|(\w+)\| \1\.typ (!=|==) PointType::(\w+)\)"
+        re.match(r"let rotate = self\.points\.iter\(\)\.rev\(\)\.position\(\|(\w+)\| \1\.typ (!=|==) PointType::(\w+)\)"
                   r"\.map\(\|(\w+)\| self\.points\.len\(\) - (\d+) - \4\);", closed)
     if m:
         rot_op, rot_t, rot_k = cmp_op(m.group(2)), PT[m.group(3)], m.group(5)
     else:
-        m = need(re.search(r"let rotate = self ?\.points ?\.iter\(\) ?\.rposition\(\|(\w+)\| \1\.typ (!=|==) PointType::(\w+)\);", closed),
+        m = need(re.match(r"let rotate = self ?\.points ?\.iter\(\) ?\.rposition\(\|(\w+)\| \1\.typ (!=|==) PointType::(\w+)\);", closed),
                  "rotate")
         rot_op, rot_t, rot_k = cmp_op(m.group(2)), PT[m.group(3)], "1"
     tail = closed[m.end():].strip()
@@ -458,10 +471,130 @@ def split_top(txt, sep):
     return out
 
 
-def eval_transform(body, tn, variant):
+# ---- early returns of `transform`: `if <cond> { return; }` -> a guarded arm, the condition translated over `Num`
+
+GTOK = re.compile(r"\.abs\(\)|f64::EPSILON|[A-Za-z_]\w*(?:\.(?!abs\(\))[A-Za-z_]\w*)*(?:\(\))?|\d+\.?\d*(?:f64)?|&&|<=|>=|==|!=|[()<>\-*&]|\S")
+
+
+def identity_table(src):
+    m = need(re.search(r"fn identity\(\) -> Self \{ AffineTransform \{ (.*?),? \} \}", src), "identity()")
+    tab = {}
+    for f in m.group(1).split(","):
+        mm = need(re.fullmatch(r"(\w+): (\d+\.?\d*)", f.strip()), "identity field " + f)
+        tab[mm.group(1)] = float(mm.group(2))
+    if sorted(tab) != sorted(FIELD):
+        raise Anchor("identity(): six fields expected")
+    return tab
+
+
+def lit(v):
+    if v == 0.0:
+        return "N.zero"
+    if v == 1.0:
+        return "N.one"
+    raise Anchor("guard: literal %r" % v)
+
+
+def parse_guard(expr, names):
+    """boolean expression -> Lean Bool over `N : Num α`.  `names`: identifier prefix -> 't' (the transform) or a
+    literal table (a binding of `identity()`).  Grammar: cmp (&& cmp)*, cmp = arith OP arith,
+    arith = postfix (- postfix)*, postfix = primary (.abs())*, primary = operand | number | ( arith )"""
+    toks = GTOK.findall(expr)
+    pos = [0]
+
+    def peek():
+        return toks[pos[0]] if pos[0] < len(toks) else None
+
+    def take():
+        t = toks[pos[0]]
+        pos[0] += 1
+        return t
+
+    def operand(t):
+        if t == "f64::EPSILON":
+            return "N.eps"
+        if re.fullmatch(r"\d+\.?\d*(?:f64)?", t):
+            return lit(float(t.replace("f64", "")))
+        m = re.fullmatch(r"(\w+)\.(\w+)", t)
+        if m and m.group(1) in names and m.group(2) in FIELD:
+            tab = names[m.group(1)]
+            return "t." + FIELD[m.group(2)] if tab == "t" else lit(tab[m.group(2)])
+        raise Anchor("guard: operand " + t)
+
+    def primary():
+        t = take()
+        if t == "(":
+            e = arith()
+            if take() != ")":
+                raise Anchor("guard: ')' expected")
+            return e
+        return operand(t)
+
+    def postfix():
+        e = primary()
+        while peek() == ".abs()":
+            take()
+            e = "(N.abs %s)" % e
+        return e
+
+    def arith():
+        e = postfix()
+        while peek() == "-":
+            take()
+            e = "(N.sub %s %s)" % (e, postfix())
+        return e
+
+    def cmp():
+        a = arith()
+        op = take() if peek() in ("<", "<=", ">", ">=", "==", "!=") else None
+        if op is None:
+            raise Anchor("guard: comparison expected")
+        b = arith()
+        return {"<": "N.lt %s %s" % (a, b), "<=": "N.le %s %s" % (a, b), ">": "N.lt %s %s" % (b, a),
+                ">=": "N.le %s %s" % (b, a), "==": "N.beq %s %s" % (a, b), "!=": "!(N.beq %s %s)" % (a, b)}[op]
+    parts = [cmp()]
+    while peek() == "&&":
+        take()
+        parts.append(cmp())
+    if pos[0] != len(toks):
+        raise Anchor("guard: unexpected token %s" % toks[pos[0]])
+    return " && ".join(("(%s)" % q) for q in parts)
+
+
+def fieldwise_eq(tab):
+    order = ["x_scale", "xy_scale", "yx_scale", "y_scale", "x_offset", "y_offset"]
+    return " && ".join("(N.beq t.%s %s)" % (FIELD[f], lit(tab[f])) for f in order)
+
+
+def translate_guard(cond, tn, src):
+    """condition of an early return of `transform(&mut self, tn: AffineTransform)`"""
+    cond = cond.strip()
+    ident = r"(?:AffineTransform|Self)::(?:identity|default)\(\)"
+    if re.fullmatch(re.escape(tn) + r" == " + ident, cond) or re.fullmatch(ident + r" == " + re.escape(tn), cond):
+        return fieldwise_eq(identity_table(src))
+    m = re.fullmatch(re.escape(tn) + r"\.(\w+)\(\)", cond)
+    if m:
+        # a predicate method of AffineTransform: its body is read from the source
+        mm = need(re.search(r"fn %s\(&self\) -> bool " % re.escape(m.group(1)), src), "predicate " + m.group(1))
+        body, _ = block_after(src, mm.end() - 1)
+        names = {"self": "t"}
+        parts = split_top(body, ";")
+        for st in parts[:-1]:
+            b = need(re.fullmatch(r"let (\w+) = " + ident, st), "predicate statement " + st[:40])
+            names[b.group(1)] = identity_table(src)
+        last = parts[-1]
+        if re.fullmatch(r"\*self == " + ident, last) or re.fullmatch(r"self == &" + ident, last):
+            return fieldwise_eq(identity_table(src))
+        return parse_guard(last, names)
+    return parse_guard(cond, {tn: "t"})
+
+
+def eval_transform(body, tn, variant, src):
     """symbolic evaluation of the statements of `transform` that exist in the build `variant` ('K' = with the kurbo
-    feature, 'N' = without): -> (lean expr of the new x, of the new y)"""
+    feature, 'N' = without): -> (lean expr of the new x, of the new y, [translated early-return conditions]).
+    Every statement must be of a known form — an unrecognised one raises Anchor (pinned copy), it is never skipped."""
     env = {"self.x": ("a", "x"), "self.y": ("a", "y")}
+    guards = []
 
     def atom(t):
         if t in env:
@@ -484,6 +617,17 @@ def eval_transform(body, tn, variant):
             if m.group(1) != variant:
                 continue
             s = s[m.end():].strip()
+        # early returns: `if <cond> { return; }` (no `;` after the block, so it is glued to the next statement)
+        while True:
+            g = re.match(r"if (.*?) \{ return;? \} ?", s)
+            if not g:
+                break
+            if env["self.x"] != ("a", "x") or env["self.y"] != ("a", "y"):
+                raise Anchor("transform: early return after an assignment")
+            guards.append(translate_guard(g.group(1), tn, src))
+            s = s[g.end():].strip()
+        if not s:
+            continue
         if "@K" in s or "@N" in s:
             raise Anchor("transform: feature gate inside a statement")
         m = re.fullmatch(r"let kurbo::Point \{ x: (\w+), y: (\w+),? \} = " + kur, s)
@@ -511,7 +655,7 @@ def eval_transform(body, tn, variant):
             continue
         m = need(re.fullmatch(r"(?:let (\w+)|(self\.[xy])) = (.*)", s), "transform statement " + s[:50])
         env[m.group(1) or m.group(2)] = parse_expr(tokenize(m.group(3)), atom)
-    return show(env["self.x"]), show(env["self.y"])
+    return show(env["self.x"]), show(env["self.y"]), guards
 
 
 def gen_transform(src):
@@ -520,12 +664,24 @@ def gen_transform(src):
     i = need(re.search(r"pub fn transform\(&mut self, (\w+): AffineTransform\) ", src), "transform")
     tn = i.group(1)
     body, _ = block_after(src, i.end() - 1)
-    variants = {v: eval_transform(body, tn, v) for v in ("K", "N")}
+    variants = {v: eval_transform(body, tn, v, src) for v in ("K", "N")}
     tr = []
     for name, v, doc in (("transform", "K", "built with the `kurbo` feature"), ("transformPlain", "N", "default features (no kurbo)")):
-        tr += ["/-- `ContourPoint::transform`, %s -/" % doc,
-               "def %s [Add α] [Mul α] (t : Affine α) (x y : α) : α × α :=" % name,
-               "  (%s, %s)" % variants[v], ""]
+        ex, ey, guards = variants[v]
+        tr += ["/-- number of early returns at the top of `transform` (%s) -/" % doc,
+               "def %sGuards : Nat := %d" % (name, len(guards)), ""]
+        if guards:
+            tr += ["/-- the condition(s) of the early return(s) of `transform`, translated from the source over abstract",
+                   "    numeric operations (`Num`): the point is returned unchanged when this holds -/",
+                   "def %sGuard (N : Num α) (t : Affine α) : Bool :=" % name,
+                   "  " + " || ".join("(%s)" % g for g in guards), "",
+                   "/-- `ContourPoint::transform`, %s -/" % doc,
+                   "def %s [Add α] [Mul α] (N : Num α) (t : Affine α) (x y : α) : α × α :=" % name,
+                   "  if %sGuard N t then (x, y) else (%s, %s)" % (name, ex, ey), ""]
+        else:
+            tr += ["/-- `ContourPoint::transform`, %s -/" % doc,
+                   "def %s [Add α] [Mul α] (t : Affine α) (x y : α) : α × α :=" % name,
+                   "  (%s, %s)" % (ex, ey), ""]
     o = []
 
     i = need(re.search(r"impl From<AffineTransform> for kurbo::Affine \{ fn from\((\w+): AffineTransform\) -> kurbo::Affine "
